@@ -62,6 +62,7 @@ class ScriptedRandomState(np.random.RandomState):
             out.append(decode_digit(d))
         arr = np.array(out).reshape(shape)
         self._ex.track(arr)
+        self._ex.note_value(kind, arr)
         return arr
 
     # -- integers ----------------------------------------------------------
@@ -97,6 +98,7 @@ class ScriptedRandomState(np.random.RandomState):
         p = np.array(ps[idx], dtype=int)
         out = p if base is None else base[p]
         self._ex.track(out)
+        self._ex.note_value('permutation', out)
         return out
 
     def shuffle(self, x):
@@ -279,6 +281,9 @@ class Explorer(object):
         except TypeError:
             pass
 
+    def note_value(self, kind, value):
+        self.values.append((kind, np.array(value).copy()))
+
     def _frames(self):
         return repo_frames(3)
 
@@ -402,6 +407,7 @@ class Explorer(object):
                 self.sig = hash(())
                 self.sig_at = []
                 self._tracked = []
+                self.values = []
                 self.executions += 1
                 signal.setitimer(signal.ITIMER_REAL, self.exec_timeout)
                 try:
@@ -478,9 +484,15 @@ def replay_answers(fn, answers, unit_points=(0.25, 0.75), vec_unit_points=(0.25,
 
         def track(self, arr):
             pass
+
+        def note_value(self, kind, value):
+            self.values.append((kind, np.array(value).copy()))
     fx = _Fixed()
+    fx.values = []
     try:
-        return 'ok', fn(ScriptedRandomState(fx)), fx.log
+        fn_out = fn(ScriptedRandomState(fx))
+        replay_answers.last_values = fx.values
+        return 'ok', fn_out, fx.log
     except HarnessError:
         raise
     except Exception as e:  # noqa: BLE001
